@@ -18,8 +18,10 @@ def checkRange (l : Line) (b e : Int) : Int × Int × Bool :=
   else
     let b := if b > len l then len l else b
     let e := if e > len l then len l else e
-    let (b, e) := if b < 0 then (e, (-1 : Int)) else if e < 0 then (b, (-1 : Int)) else (b, e)
-    if b > e ∧ e ≠ -1 then (e, b, true) else (b, e, true)
+    -- a negative end is "pending": the other one becomes the start
+    if b < 0 then (e, -1, true)
+    else if e < 0 then (b, -1, true)
+    else if b > e then (e, b, true) else (b, e, true)
 
 /-- Selection.MarkRange -/
 def markRange (l : Line) (s : S) (b e : Int) : S :=
@@ -63,18 +65,26 @@ def selectToCursor (l : Line) (s : S) (cpos : Int) (b : Int) : G (Int × Int) :=
     else pure (b, e) : G (Int × Int))
   if b > e then pure (e, b) else pure (b, e)
 
-/-- Selection.Pos: returns (bpos, epos) and the updated selection (it stores the checked range) -/
-def pos (l : Line) (s : S) (cur : Cur) : G (Int × Int × S) := do
-  if len l = 0 ∨ !s.active then return (-1, -1, s)
-  let (b, e, ok) := checkRange l s.bpos s.epos
-  if !ok then return (b, e, s)
-  let s := { s with bpos := b, epos := e }
+/-- second half of `Pos`, from the checked stored range `(b1, e1)`: a pending end is replaced by
+the cursor, a visual selection includes the character under its end, and the result is checked again.
+It depends on the selection only through its `visual` / `visualLine` flags. -/
+def posFrom (l : Line) (s : S) (cur : Cur) (b1 e1 : Int) : G (Int × Int) := do
   let cpos := (checkAppend l cur).pos
-  let (b, e) ← (if e = -1 then selectToCursor l s cpos b else pure (b, e) : G (Int × Int))
+  let (b, e) ← (if e1 = -1 then selectToCursor l s cpos b1 else pure (b1, e1) : G (Int × Int))
   let e := if s.visual then e + 1 else e
-  let (b, e, ok) := checkRange l b e
-  if !ok then return (-1, -1, s)
-  return (b, e, s)
+  let r := checkRange l b e
+  if !r.2.2 then return (-1, -1)
+  return (r.1, r.2.1)
+
+/-- Selection.Pos: returns (bpos, epos) and the updated selection (it stores the checked range) -/
+def pos (l : Line) (s : S) (cur : Cur) : G (Int × Int × S) :=
+  if len l = 0 ∨ !s.active then .ok (-1, -1, s) else
+  let r := checkRange l s.bpos s.epos
+  if !r.2.2 then .ok (r.1, r.2.1, s) else
+  let s' := { s with bpos := r.1, epos := r.2.1 }
+  match posFrom l s' cur r.1 r.2.1 with
+  | .ok (b, e) => .ok (b, e, s')
+  | .error x => .error x
 
 /-- Selection.Text -/
 def text (l : Line) (s : S) (cur : Cur) : G (List Nat × S) := do
@@ -93,5 +103,14 @@ def cut (l : Line) (s : S) (cur : Cur) : G (List Nat × Line × S) := do
   let (t, s2) ← text l s1 cur
   let l' ← Core.cut l b e
   return (t, l', reset s2)
+
+/-- Selection.Pop: the selected text and its range (the selection is reset afterwards; the cursor
+position it also returns is not modelled) -/
+def pop (l : Line) (s : S) (cur : Cur) : G (List Nat × Int × Int) := do
+  if len l = 0 then return ([], -1, -1)
+  let (b, e, _) ← pos l s cur
+  if b = -1 ∨ e = -1 then return ([], -1, -1)
+  if b < 0 ∨ e > len l ∨ b > e then throw (.oob "pop slice")
+  return ((l.drop b.toNat).take (e - b).toNat, b, e)
 
 end RLV.Sel
